@@ -321,7 +321,7 @@ PENDING_FAILS = []
 
 def make_group(rng, n=None, k=None):
     import menpo.shape as ms
-    n = n or int(rng.integers(2, 31))
+    n = n or (2 if rng.random() < 0.08 else int(rng.integers(2, 31)))
     k = k or int(rng.integers(1, 9))
     pts = gen.points(rng, n, int(rng.integers(2, 4)))
     masks = gen.label_masks(rng, n, k)
@@ -354,7 +354,16 @@ def make_group(rng, n=None, k=None):
         g = ms.LabelledPointUndirectedGraph.init_from_indices_mapping(pts, np.asarray(A.todense()), idx)
     else:
         e = np.array([(i, j) for i, j in zip(*np.nonzero(np.triu(np.asarray(A.todense()))))], dtype=int).reshape(-1, 2)
+        # the edge list in whatever integer type it was stored in (the narrowest that holds the vertex indices, say), or as a list
+        et = [int, np.int32, np.uint8, np.int8, np.int16, np.uint16, "list"][rng.integers(0, 7)]
+        if et == "list":
+            e = [tuple(int(v) for v in r) for r in e] if len(e) else e
+        else:
+            e = e.astype(et)
         g = ms.LabelledPointUndirectedGraph.init_from_edges(pts, e, masks)
+    # the group carries exactly the edges it was given ...
+    if not np.array_equal(np.asarray(g.adjacency_matrix.todense()) != 0, np.asarray(A.todense()) != 0):
+        PENDING_FAILS.append(("constructed_group_does_not_carry_the_edges_it_was_given", "LabelledPointUndirectedGraph:" + ["constructor", "indices_mapping", "init_from_edges"][how] + (":two_points" if n == 2 else "")))
     # the group carries exactly the labels it was given ...
     got = [(k_, np.array(v_, copy=True)) for k_, v_ in g._labels_to_masks.items()]
     if [k_ for k_, _ in got] != [k_ for k_, _ in intended] or any(not np.array_equal(a_, b_) for (_, a_), (_, b_) in zip(got, intended)):
@@ -589,6 +598,23 @@ def w_labellers(ctx, rng, i):
             np.array_equal(a, b) for a, b in zip(out_t._labels_to_masks.values(), out._labels_to_masks.values()))
         if not same or edges_of(out_t) != edges_of(out):
             ctx.fail("labelling_depends_on_the_coordinates", cls=name, mech=kind)
+    # missing landmarks (NaN coordinates, as null points of an annotation file come in) / points at infinity: a labeller only
+    # re-indexes - the same points in the same places, and the input left alone
+    if kind in ("ndarray", "PointCloud", "Labelled") and -1 not in idx and rng.random() < 0.5:
+        pn = pts.copy()
+        for r_ in rng.choice(N, int(rng.integers(1, 4)), replace=False):
+            pn[r_, rng.integers(0, d) if rng.random() < 0.5 else slice(None)] = [np.nan, np.nan, np.inf, -np.inf][rng.integers(0, 4)]
+        xn = wrap(pn)
+        dgn = digest(xn)
+        ctx.tap("labeller_with_missing_landmarks", "calls"); ctx.tap("labeller_with_missing_landmarks", "checked")
+        try:
+            on = f(xn)
+            if digest(xn) != dgn:
+                ctx.fail("labeller_modified_its_input", cls=name, mech=kind + ":missing_landmarks")
+            if np.asarray(on.points).shape != op.shape or not np.array_equal(np.asarray(on.points, dtype=float), pn[idx], equal_nan=True):
+                ctx.fail("labeller_output_contains_a_point_that_is_not_an_input_point", cls=name, mech=kind + ":missing_landmarks")
+        except Exception as e_:
+            ctx.fail("labeller_raised_on_input_of_the_right_size", cls=name, mech="%s:%dD:missing_landmarks:%s" % (kind, d, type(e_).__name__), error=repr(e_)[:200])
     # mapping variant agrees
     o2, mapping = f(wrap(pts), return_mapping=True)
     if not np.array_equal(o2.points, op):
